@@ -119,6 +119,9 @@ fn run<T: Sc>(case: &C04Case) -> Check {
         out.class("ends-on-set_params(re-applied or rejected)");
     }
     out.class(base.flavour());
+    for r in base.regime() {
+        out.class(r);
+    }
     out.class(format!("patience={}", if lm.patience <= 6 { "1..6" } else { ">6" }));
     Ok(out)
 }
@@ -139,7 +142,7 @@ impl Property for C04 {
     }
     fn strategy(&self, _tier: Tier) -> BoxedStrategy<C04Case> {
         let cfg = CaseCfg { max_s: 4, ..CaseCfg::default() };
-        let fam = FamCfg { max_s: 4, min_n: 12, max_n: 60, noise_lo: 1e-4, noise_hi: 1e-1, noiseless_16: 4, start_rel: 0.3, allow_f32: true, weights: true, calibrated_weights: false, extra_families: false, wide_weights: false, max_decays: 3 };
+        let fam = FamCfg { max_s: 4, min_n: 12, max_n: 60, noise_lo: 1e-4, noise_hi: 1e-1, noiseless_16: 4, start_rel: 0.3, allow_f32: true, weights: true, calibrated_weights: false, extra_families: false, wide_weights: false, max_decays: 3, units: true, long_data: true };
         (case_strategy(cfg), family_strategy(fam), lm_strategy(12), any::<u16>(), any::<u16>(), any::<u16>())
             .prop_map(|(mut base, fam, lm, src, wild, wk)| {
                 if src % 2 == 0 {
@@ -157,6 +160,9 @@ impl Property for C04 {
                 C04Case { base, lm }
             })
             .boxed()
+    }
+    fn pool_of(&self, case: &Self::Case) -> Option<usize> {
+        case.base.pool_size()
     }
     fn check(&self, case: &C04Case) -> Check {
         if case.base.f32 {
